@@ -743,7 +743,7 @@ impl Prop for C17 {
                 max_len: 120,
                 seed,
                 seeds: crate::fuzz::random_seeds(seed, 24, 120),
-                max_time: 1500,
+                max_time: 600,
             },
             ev,
         );
